@@ -110,6 +110,10 @@ def _head(form: str, n: str, ind: str, prop: bool) -> list:
         "with": ["with CTX:"],
         "withh3": ["with (", "    CTX", "):"],
         "else": ["else:"],
+        "elif": ["elif COND:"],
+        "try": ["try:"],
+        "exc": ["except Exception:"],
+        "fin": ["finally:"],
         "expr": ["id(0)"],
         "exprp2": ["id(", "    0)"],
         "str1": [f'"""Text {n}."""'],
